@@ -3,6 +3,7 @@ import ast
 import re
 
 from ..core import AnalysisError
+from .shared_py import inn
 from ..pyfront import unparse, try_const, path_conditions, norm_key
 from ..cxxlib import nows
 from .. import templ, predabs, cxxfront
@@ -48,9 +49,9 @@ def padder(ctx, L):
             'each piece is naturally aligned after an odd end)', str(table))
     f = m.func('_Padder.generate_padding')
     src = ws(unparse(f.node))
-    L.check('assert 0 < padding < 8' in src, 'C08.padder', '_Padder.generate_padding|range', f.site(),
+    L.check(inn('assert 0 < padding < 8', src), 'C08.padder', '_Padder.generate_padding|range', f.site(),
             'the padder handles exactly 1..7 bytes (maximum alignment 8)', src)
-    L.check("return ''.join((self._gen_padding_var(type_) for val, type_ in self.PADDINGS if padding & val))" in src, 'C08.padder',
+    L.check(inn("return ''.join((self._gen_padding_var(type_) for val, type_ in self.PADDINGS if padding & val))", src), 'C08.padder',
             '_Padder.generate_padding|decompose', f.site(), 'one padding member per set bit of the padding size', src)
     g = m.func('_Padder._gen_padding_var')
     L.check('self.index += 1' in ws(unparse(g.node)), 'C08.padder', '_Padder._gen_padding_var', g.site(),
@@ -79,24 +80,24 @@ def hpp_struct(ctx, L):
     if len(opt) != 1:
         raise AnalysisError('gen_member: optional branch not found')
     osrc = ws(unparse(opt[0]))
-    L.check("'prophy::bool_t has_{0};\\n'.format(member.name)" in osrc, 'C08.optional-flag', 'gen_member|flag', f.site(opt[0]),
+    L.check(inn("'prophy::bool_t has_{0};\\n'.format(member.name)", osrc), 'C08.optional-flag', 'gen_member|flag', f.site(opt[0]),
             'an optional is a 4-byte prophy::bool_t has_<name> flag before the value', osrc)
     gap = [n for n in ast.walk(opt[0]) if isinstance(n, ast.If) and n is not opt[0]]
     gok, bumped = False, False
     helper_ok = False
     if m.has_func('_get_value_alignment'):
         h = ws(unparse(m.func('_get_value_alignment').node))
-        helper_ok = ("while getattr(node, 'definition', None): node = node.definition" in h and
-                     'if isinstance(node, (model.Struct, model.Union)): return node.alignment' in h and
-                     'if isinstance(node, model.Enum): return model.ENUM_SIZE' in h and
-                     'return model.BUILTIN_SIZES.get(node.type_name)' in h)
+        helper_ok = (inn("while getattr(node, 'definition', None): node = node.definition", h) and
+                     inn('if isinstance(node, (model.Struct, model.Union)): return node.alignment', h) and
+                     inn('if isinstance(node, model.Enum): return model.ENUM_SIZE', h) and
+                     inn('return model.BUILTIN_SIZES.get(node.type_name)', h))
     for g in gap:
         t = nows(unparse(g.test))
         b = nows(unparse(g.body))
         if 'member.alignment' in t or 'member.alignment' in b:
             bumped = True
         if re.search(r'value_alignment>(model\.)?DISC_SIZE', t) and 'generate_padding(value_alignment-' in b and \
-                'value_alignment = _get_value_alignment(member)' in osrc and helper_ok:
+                inn('value_alignment = _get_value_alignment(member)', osrc) and helper_ok:
             gok = True
     L.check(not bumped, 'C08.gap-obligation', 'gen_member|optional-gap-source', f.site(opt[0]),
             'the flag-to-value gap is derived from member.alignment, which the model bumps to the block alignment for the first member '
@@ -118,15 +119,15 @@ def hpp_struct(ctx, L):
     # parts
     g = m.func('_HppDefinitionsTranslator.translate_struct')
     gs = ws(unparse(g.node))
-    L.check('main, parts = model.partition(struct.members)' in gs, 'C08.parts', 'translate_struct|partition', g.site(),
+    L.check(inn('main, parts = model.partition(struct.members)', gs), 'C08.parts', 'translate_struct|partition', g.site(),
             'the struct is split by model.partition (after each dynamic field)', '')
-    L.check('return STRUCT_DEF_TEMPLATE.format(align=struct.alignment, name=struct.name, blocks=blocks)' in gs, 'C08.parts',
+    L.check(inn('return STRUCT_DEF_TEMPLATE.format(align=struct.alignment, name=struct.name, blocks=blocks)', gs), 'C08.parts',
             'translate_struct|struct-align', g.site(), 'the struct is declared with its wire alignment', '')
     gp = m.func('_HppDefinitionsTranslator.translate_struct.gen_part')
     ps = ws(unparse(gp.node))
     L.check('align=part[0].alignment' in ps, 'C08.parts', 'gen_part|align', gp.site(),
             'a part is aligned like its first member (whose alignment the model bumps to the block maximum)', ps)
-    L.check('[gen_part(index, part, padder) for index, part in enumerate(parts)]' in gs and 'index=index + 2' in ps, 'C08.part-numbering',
+    L.check(inn('[gen_part(index, part, padder) for index, part in enumerate(parts)]', gs) and inn('index=index + 2', ps), 'C08.part-numbering',
             'hpp|gen_part', gp.site(), 'parts are numbered from 2 in declaration order (list index + 2)', ps)
     for name, tmpl, pieces in (
             ('STRUCT_DEF_TEMPLATE', None, ['PROPHY_STRUCT({align}) {name}', '{blocks}}};']),
@@ -142,8 +143,8 @@ def hpp_struct(ctx, L):
             re.search(r"generate_padding\(union\.alignment-(model\.)?DISC_SIZE\)", nows(us)) is not None, 'C08.gap-obligation',
             'translate_union|discriminator-gap', u.site(),
             'between the 4-byte discriminator and the arms of an 8-aligned union a 4-byte manual padding must be emitted', us)
-    L.check('return UNION_DEF_TEMPLATE.format(align=union.alignment, name=union.name, parts=_indent(parts, 4))' in us and
-            "'discriminator_{0} = {1}'.format(member.name, member.discriminator)" in us, 'C08.templates', 'translate_union',
+    L.check(inn('return UNION_DEF_TEMPLATE.format(align=union.alignment, name=union.name, parts=_indent(parts, 4))', us) and
+            inn("'discriminator_{0} = {1}'.format(member.name, member.discriminator)", us), 'C08.templates', 'translate_union',
             u.site(), 'union: aligned struct, discriminator enum with every arm, anonymous union of the arms', '')
 
 
@@ -185,17 +186,17 @@ def swap_templates(ctx, L):
     L.check(ok and c.strip() == 'case {name}::discriminator_{member}: swap({access}); break;', 'C09.convert-before-use',
             'UNION_SWAP_CASE_TEMPLATE', m.rel, 'exactly the selected arm is swapped', c if ok else '')
     ok, e = try_const(m.assign_value('ENUM_SWAP_TEMPLATE'))
-    L.check(ok and 'swap(reinterpret_cast<uint32_t*>(in)); return in + 1;' in e, 'C09.enum-swap-32bit', 'ENUM_SWAP_TEMPLATE', m.rel,
+    L.check(ok and inn('swap(reinterpret_cast<uint32_t*>(in)); return in + 1;', e), 'C09.enum-swap-32bit', 'ENUM_SWAP_TEMPLATE', m.rel,
             'an enum is swapped as a 32-bit value', e if ok else '')
     f = m.func('_CppSwapTranslator.translate_struct.gen_member')
     src = ws(unparse(f.node))
-    L.check("preamble = 'swap(&payload->has_{0});\\nif (payload->has_{0}) '.format(member.name)" in src, 'C09.convert-before-use',
+    L.check(inn("preamble = 'swap(&payload->has_{0});\\nif (payload->has_{0}) '.format(member.name)", src), 'C09.convert-before-use',
             'gen_member|optional-flag', f.site(), 'an optional\'s has_ flag is swapped before it is tested', src)
-    L.check("return preamble + 'swap({0})'.format(_member_access_statement(member))" in src, 'C09.member-ladder',
+    L.check(inn("return preamble + 'swap({0})'.format(_member_access_statement(member))", src), 'C09.member-ladder',
             'gen_member|plain', f.site(), 'a plain/optional member is swapped through its address', src)
     acc = m.func('_member_access_statement')
     a = ws(unparse(acc.node))
-    L.check("out = '&payload->%s' % member.name" in a and 'if isinstance(member, model.StructMember) and member.is_array: out = out[1:]' in a,
+    L.check(inn("out = '&payload->%s' % member.name", a) and inn('if isinstance(member, model.StructMember) and member.is_array: out = out[1:]', a),
             'C09.member-ladder', '_member_access_statement', acc.site(), 'scalars by address, arrays by name (pointer to first element)', a)
 
 
@@ -214,7 +215,7 @@ def swap_ladder(ctx, L):
         raise AnalysisError('swap gen_member: bound/size sub-ladder not found')
     rows = templ.if_chain(inner[0])
     src = ws(unparse(top[0]))
-    L.check("is_dynamic = member.kind == model.Kind.DYNAMIC" in src and "swap_mode = 'dynamic' if is_dynamic else 'fixed'" in src,
+    L.check(inn("is_dynamic = member.kind == model.Kind.DYNAMIC", src) and inn("swap_mode = 'dynamic' if is_dynamic else 'fixed'", src),
             'C09.swap-mode', 'gen_member|mode', f.site(), 'swap_n_dynamic exactly for arrays whose element kind is DYNAMIC (elements of '
             'varying size: step by the returned pointer), swap_n_fixed otherwise', src[:200])
     dom = [a for a in predabs.domain() if not a.last and a.padding == 0 and a.form != 'plain']
@@ -234,7 +235,7 @@ def swap_ladder(ctx, L):
                 'a non-last `%s` member must yield exactly one swap statement %s; the ladder yields %s (a member falling through '
                 'every branch emits `None;`)' % (a.label(), want, rets), str(rets))
     L.floor('C09.member-ladder', n, 10)
-    L.check("bound = member.bound if member.bound not in delimiters: bound = 'payload->' + bound" in src, 'C09.member-ladder',
+    L.check(inn("bound = member.bound if member.bound not in delimiters: bound = 'payload->' + bound", src), 'C09.member-ladder',
             'gen_member|counter-source', f.site(), 'the element count is read from payload-> unless it was passed in as a delimiter', '')
 
 
@@ -294,15 +295,15 @@ def last_member_and_casts(ctx, L):
             'part functions are generated for number index + 2, before the main function that calls them', tss)
     gmiss = m.func('_CppSwapTranslator.translate_struct.gen_main.get_missing')
     gs = ws(unparse(gmiss.node))
-    L.check('part = parts[part_number]' in gs and 'return [(all_names[mem.bound], mem.bound) for mem in part if mem.bound and mem.bound not in names]' in gs,
+    L.check(inn('part = parts[part_number]', gs) and inn('return [(all_names[mem.bound], mem.bound) for mem in part if mem.bound and mem.bound not in names]', gs),
             'C09.part-numbering', 'get_missing', gmiss.site(),
             'the delimiters passed to a part are the sizers of its arrays that live outside it, each read from the part that holds it', gs)
-    L.check("names = [mem.name for mem in part] delimiters = [mem.bound for mem in part if mem.bound and mem.bound not in names]" in ps
-            and "delimiters_list = ''.join((', size_t {0}'.format(x) for x in delimiters))" in ps, 'C09.part-numbering',
+    L.check(inn("names = [mem.name for mem in part] delimiters = [mem.bound for mem in part if mem.bound and mem.bound not in names]", ps)
+            and inn("delimiters_list = ''.join((', size_t {0}'.format(x) for x in delimiters))", ps), 'C09.part-numbering',
             'gen_part|delimiters', gp.site(), 'a part function takes the same outside sizers, in the same order, as parameters', ps[:300])
-    L.check("all_names = {mem.name: 'payload' for mem in main}" in ms, 'C09.part-numbering', 'gen_main|main-names', gm.site(),
+    L.check(inn("all_names = {mem.name: 'payload' for mem in main}", ms), 'C09.part-numbering', 'gen_main|main-names', gm.site(),
             'members of the main block are read through payload', '')
-    L.check("members = ''.join((gen_member(mem) + ';\\n' for mem in main[:-1]))" in ms, 'C09.convert-before-use', 'gen_main|order',
+    L.check(inn("members = ''.join((gen_member(mem) + ';\\n' for mem in main[:-1]))", ms), 'C09.convert-before-use', 'gen_main|order',
             gm.site(), 'members are swapped in declaration order (a counter precedes the array it sizes)', '')
     for k, tmplname, pieces in (('part', 'STRUCT_SWAP_PART_TEMPLATE', ['inline {name}::part{number}* swap({name}::part{number}* payload{delimiters})']),
                                 ('main', 'STRUCT_SWAP_MAIN_TEMPLATE', ['template <>', '{name}* swap<{name}>({name}* payload)'])):
